@@ -11,6 +11,18 @@ VERIF = os.path.dirname(os.path.dirname(os.path.abspath(__file__)))
 MC = "model_checking"
 
 CLAIMS = {
+    "C11": dict(
+        engine="NixOpen",
+        technique="TLA+ specs NixOpen (gating function, laws checked by TLC) and NixSession x NixModel (read-only sessions placed by TLC in write histories) + execution of every vector / schedule against File.open and real read-only sessions (sha256, projection)",
+        text="NixOpen enumerates every header (36 version triples x format tag x id state, or no file) x open mode with the expected outcome class; TLC checks WritableImpliesReadable, OverwriteEmpties, OthersKeep, CreateOnlyIfMissing, MinorMonotone, ForeignRefused; each vector is executed on a file crafted with h5py (outcome, fresh header after truncation, content and header untouched otherwise). NixSession places read-only sessions at every point of write histories exported from NixModel; the transition's own mutator is attempted read-only and must raise iff it changes the state in a writable session; projection in the read-only session equals the writable one, bytes on disk (sha256) unchanged.",
+        note="Trusted: TLC; h5py for crafting headers; the mutators attempted read-only are those of the NixModel families (create, attributes, data, links, roles, delete) over all entity kinds; files without a version attribute left open.",
+        design_ref="6/C11"),
+    "C17": dict(
+        engine="NixSession",
+        technique="TLA+ spec NixSession (mem/disk/flush/close/kill, checked by TLC) composed with NixModel and NixArray write histories + real SIGKILL of a forked writer after flush()/close(), reopen and full projection compare",
+        text="TLC explores every placement of Flush / Close / Kill / reopen in the session model (KillAfterFlushLosesNothing, OpenShowsDisk, DiskMonotone) and the write histories of the entity-graph and array models; each session runs in a forked child that records the projection at every flush()/close() and is SIGKILLed where the schedule says so; the parent opens the file read-only and read-write and compares the complete projection with the flush-point record and with the specification state.",
+        note="Trusted: TLC; SIGKILL delivered by the writer to itself right after flush()/close() returned (no interpreter shut-down); OS crash / power loss not modelled.",
+        design_ref="6/C17"),
     "C01": dict(
         engine="NixArray",
         technique="TLA+ spec NixArray (cell -> write-stamp map) checked by TLC + replay of every exported transition on a real DataArray under seeded concretisations (element type, values, compression, handles)",
